@@ -374,7 +374,8 @@ def run(ctx):
             for call in calls:
                 if call["m"] in ("Query/GetVertex", "Edit/BulkAdd", "Job/ViewJob") and call["cred"] == "right" and call["user"] == "alice":
                     ctx.sample(dict(policy=cfg["policy"], call={k: call[k] for k in ("t", "m", "user", "cred", "g", "elems")},
-                                    events=[{k: v for k, v in e.items() if v not in ("", 0, False) or k == "ok"} for e in call["ev"]],
+                                    events=[{k: v for k, v in e.items() if v not in ("", 0, False) or (k == "ok" and e["e"] in ("Validate", "Enforce"))}
+                                            for e in call["ev"]],
                                     verdict=verdicts[call["c"]]), limit=6)
     nontrivial = len({s for s in seen if s[0] == "casbin" and s[4] == "right" and s[3] != "root"})
     ctx.cov.update(evaluations=cnum, traces_validated_against_impl=cnum, distinct_nontrivial=nontrivial, exhaustive=True,
